@@ -618,6 +618,10 @@ impl<T: HashAlgorithm> Session<T> {
             }
         }
 
+        #[cfg(feature = "verif")]
+        crate::verif::sched::point("merkle.join", &|| {
+            crate::verif::sched::subs_all_done()
+        });
         let merkle_output = merkle_update_handle.join()?;
         Ok(FinishedSession {
             value_transaction: tx,
